@@ -13,6 +13,7 @@ import (
 // thread that performs the operation, right after it.
 var AddHook func(addr unsafe.Pointer, newVal uint64)
 var StoreHook func(v interface{})
+var StoreU64Hook func(addr unsafe.Pointer, v uint64)
 
 func rd(p unsafe.Pointer, l string) { vrt.Atomic(p, false, l) }
 func wr(p unsafe.Pointer, l string) { vrt.Atomic(p, true, l) }
@@ -33,7 +34,13 @@ func LoadPointer(a *unsafe.Pointer) unsafe.Pointer {
 func StoreInt32(a *int32, v int32)    { wr(unsafe.Pointer(a), "StoreInt32"); atomic.StoreInt32(a, v) }
 func StoreInt64(a *int64, v int64)    { wr(unsafe.Pointer(a), "StoreInt64"); atomic.StoreInt64(a, v) }
 func StoreUint32(a *uint32, v uint32) { wr(unsafe.Pointer(a), "StoreUint32"); atomic.StoreUint32(a, v) }
-func StoreUint64(a *uint64, v uint64) { wr(unsafe.Pointer(a), "StoreUint64"); atomic.StoreUint64(a, v) }
+func StoreUint64(a *uint64, v uint64) {
+	wr(unsafe.Pointer(a), "StoreUint64")
+	atomic.StoreUint64(a, v)
+	if h := StoreU64Hook; h != nil {
+		h(unsafe.Pointer(a), v)
+	}
+}
 func StoreUintptr(a *uintptr, v uintptr) {
 	wr(unsafe.Pointer(a), "StoreUintptr")
 	atomic.StoreUintptr(a, v)
